@@ -347,6 +347,247 @@ class C07(MiscProp):
         self.cli_checks(ctx)
         self.cli_histories(ctx)
         self.env_independence(ctx)
+        self.r6_io_faults(ctx)
+        self.r6_argument_combinations(ctx)
+
+    # ---------------------------------------------------------------- (e) I/O faults at every call, whatever the operation then does
+    R6_RULE = ("(e) I/O faults with the operation going on: files of >= 3 chunks (chunk hooks at chunk size 1..3, key files and password files "
+               "over sources that hand out short pieces) where ONE read / write / flush call — every call index in turn — fails with every "
+               "error kind the scripts know (Interrupted, Other, WouldBlock, UnexpectedEof, WriteZero; thorough: also two faults): whatever the "
+               "operation returns, every complete record i that reached the sink opens under nonce i and under no other nonce in 0..m+1 (also "
+               "i+256) with the file's key (key files: recovered by the recipient; password files: hashlib scrypt), i.e. no (key, nonce) seals two "
+               "records and no nonce is skipped; every faulted run is also compared with the model (which returns the error). (f) argument "
+               "combinations of key_encrypt: all 8 Some/None combinations of (ephemeral, ephemeral public, payload key), each with the byte-string "
+               "arguments made EQUAL pairwise (ephemeral pair = sender pair, = recipient pair, payload key = ephemeral private key, = sender "
+               "private key, = recipient public key, sender = recipient), every call made three times with identical inputs on the production "
+               "random source: recovered payload keys pairwise distinct unless injected, ephemeral keys pairwise distinct unless BOTH halves "
+               "injected, file keys (HKDF of payload key and handshake hash) pairwise distinct unless all three are injected, an uninjected payload "
+               "key is never a function of the other arguments (differs from every value seen in another call), and chunk 0 of two files is never "
+               "sealed under one (key, nonce) (ct XOR ct' != pt XOR pt') unless all three are injected")
+    rule = rule + " " + R6_RULE
+
+    @staticmethod
+    def r6_complete_records(F, off):
+        out, i = [], off
+        while i + 32 <= len(F):
+            ln = int.from_bytes(F[i + 12:i + 16], "big")
+            if ln > BIG or i + 32 + ln > len(F):
+                break
+            out.append(F[i:i + 32 + ln])
+            i += 32 + ln
+        return out
+
+    def r6_io_faults(self, ctx):
+        rng = ctx.rng
+        full = ctx.thorough()
+        KINDS = ["i", "o", "b", "u", "y"]
+        (s, spk), (r, rpk), (e, epk) = self.parties[0], self.parties[1], self.parties[2]
+        bases = []          # dict(kind, mk(rs, ws, fs) -> Case, caps, nflush, nwrite, key (later), aad, off)
+        for cs in ([1, 2, 3] if full else [rng.choice([2, 3])]):
+            key, aad = ctx.rbytes(32), rng.choice([b"", PASS_MAGIC])
+            for n in ([3 * cs, 3 * cs + 1, 4 * cs] if full else [3 * cs + rng.choice([0, 1])]):
+                parts = rng.choice([p for p in all_partitions(n, cs) if len(p) >= 3])
+                data = ctx.rbytes(n)
+                bases.append({"kind": "chunks", "key": key, "aad": aad, "off": 0, "sizes": sim_reads(n, parts, cs), "cs": cs, "hdrw": 0,
+                              "mk": (lambda rs, ws, fs, key=key, aad=aad, cs=cs, data=data:
+                                     Case("enc_chunks", key=key, aad=aad, cs=cs, data=data, rs=rs, ws=ws, fs=fs, tags=["io-fault", "chunks"]))})
+        for mode in ("key", "pass"):
+            for _ in range(2 if full else 1):
+                parts = [rng.randrange(1, 4) for _ in range(rng.choice([3, 4]))]
+                data = ctx.rbytes(sum(parts))
+                if mode == "key":
+                    pk = ctx.rbytes(32)
+                    bases.append({"kind": "key", "aad": b"", "off": 132, "sizes": list(parts), "cs": BIG, "hdrw": 2,
+                                  "mk": (lambda rs, ws, fs, pk=pk, data=data:
+                                         Case("key_enc", s=s, spk=spk, r=rpk, e=e, epk=epk, pk=pk, data=data, rs=rs, ws=ws, fs=fs, tags=["io-fault", "key"]))})
+                else:
+                    pw, salt = b"pw7-faults", ctx.rbytes(32)
+                    bases.append({"kind": "pass", "aad": PASS_MAGIC, "off": 36, "sizes": list(parts), "cs": BIG, "hdrw": 2,
+                                  "key": hashlib.scrypt(pw, salt=salt, n=32768, r=8, p=1, maxmem=128 * 1024 * 1024, dklen=32),
+                                  "mk": (lambda rs, ws, fs, pw=pw, salt=salt, data=data:
+                                         Case("pass_enc", pw=pw, salt=salt, data=data, rs=rs, ws=ws, fs=fs, tags=["io-fault", "pass"]))})
+        encs = []           # (base, Case, description)
+        for b in bases:
+            caps = ["c%d" % x for x in b["sizes"]] + ["c%d" % min(b["cs"], 9)]        # one entry per read call (the last one finds the end)
+            m = len(b["sizes"])
+            hf = 1 if b["hdrw"] else 0                                                  # key / password files: header writes and one header flush first
+            sites = [("read", j) for j in range(len(caps))] + [("flush", j) for j in range(m + hf)] + [("write", j) for j in range(2 * m + b["hdrw"])]
+            plans = [(site, k) for site in sites for k in KINDS]
+            if b["kind"] != "chunks" and not full:
+                # the file modes share encrypt_chunks with the hook: every site once, kinds in rotation
+                plans = [(site, KINDS[(i + rng.randrange(5)) % 5]) for i, site in enumerate(sites)]
+            b["clean"] = b["mk"](script_of(b["sizes"]), "-", "-")
+            encs.append((b, b["clean"], "no fault"))
+            for (site, j), k in plans:
+                rs, ws, fs = script_of(b["sizes"]), "-", "-"
+                if site == "read":
+                    rs = ",".join(caps[:j] + [k] + caps[j:])
+                elif site == "flush":
+                    fs = ",".join(["k"] * j + [k])
+                else:
+                    ws = ",".join(["c999"] * j + [k])
+                encs.append((b, b["mk"](rs, ws, fs), "%s call #%d fails with %s" % (site, j + 1, {"i": "Interrupted", "o": "Other", "b": "WouldBlock", "u": "UnexpectedEof", "y": "WriteZero"}[k])))
+            if full:
+                for _ in range(12):
+                    (s1, j1), (s2, j2) = rng.sample(sites, 2)
+                    rs_l, ws_l, fs_l = list(caps), [], []
+                    for (st, j) in sorted([(s1, j1), (s2, j2)], key=lambda x: -x[1]):
+                        k = rng.choice(KINDS)
+                        if st == "read":
+                            rs_l = rs_l[:j] + [k] + rs_l[j:]
+                        elif st == "flush":
+                            fs_l = (fs_l + ["k"] * (j + 1 - len(fs_l)))
+                            fs_l[j] = k
+                        else:
+                            ws_l = (ws_l + ["c999"] * (j + 1 - len(ws_l)))
+                            ws_l[j] = k
+                    encs.append((b, b["mk"](",".join(rs_l), ",".join(ws_l) or "-", ",".join(fs_l) or "-"), "two faults: %s #%d, %s #%d" % (s1, j1 + 1, s2, j2 + 1)))
+        hook_runs = [c for b, c, _ in encs if b["kind"] == "chunks"]
+        file_runs = [c for b, c, _ in encs if b["kind"] != "chunks"]
+        modelled = file_runs if full else [c for b in bases if b["kind"] != "chunks" for c in [b["clean"]]] + rng.sample(file_runs, min(8, len(file_runs)))
+        self.run_cases(ctx, hook_runs + [c for c in file_runs if any(c is x for x in modelled)], model=True)
+        self.run_cases(ctx, [c for c in file_runs if not any(c is x for x in modelled)], model=False)
+        # the key of the key-mode files: what the recipient recovers from the fault-free file's handshake
+        for b in bases:
+            if b["kind"] == "key":
+                F = b["clean"].result["out"]
+                nd = drv(ctx.bin, ["noise_dec %s %s %s %s" % (hexs(r), hexs(rpk), hexs(PROLOGUE), hexs(F[4:132]))])[0] if len(F) >= 132 else {"outcome": "short"}
+                if self.check(ctx, nd["outcome"] == "ok", {"driver": "libdrv", "lines": [b["clean"].rust_line().split(" ", 1)[1]]},
+                              "the recipient recovers the payload key of the fault-free file", nd.get("raw", "")[:200]):
+                    b["key"] = unhex(drv(ctx.bin, ["hkdf - %s %s 32" % (nd["out"], nd["hh"])])[0]["out"])
+        probes, owners = {}, []
+        for b, c, what in encs:
+            line = c.rust_line().split(" ", 1)[1]
+            inp = {"driver": "libdrv", "lines": [line], "fault": what}
+            self.count(ctx, "io-fault:%s/%s" % (b["kind"], what.split(" call")[0] if "call" in what else what.split(":")[0]))
+            self.count(ctx, "io-fault-outcome:%s" % c.result["outcome"])
+            if c is b["clean"]:
+                self.check(ctx, c.result["code"] == 0 and len(self.r6_complete_records(c.result["out"], b["off"])) == len(b["sizes"]), inp,
+                           "without a fault the file has %d records" % len(b["sizes"]), c.result["raw"][:200])
+            if "key" not in b:
+                continue
+            F = c.result["out"]
+            if c.result["code"] == 0 or len(F) >= b["off"] + 32:
+                if b["kind"] != "chunks" and F[:b["off"]] != b["clean"].result["out"][:b["off"]]:
+                    self.check(ctx, False, inp, "with everything injected the header is the fault-free file's header", F[:b["off"]].hex())
+                    continue
+            recs = self.r6_complete_records(F, b["off"])
+            m = len(recs)
+            for ri, rec in enumerate(recs):
+                for j in list(range(0, m + 2)) + [ri + 256]:
+                    kk = (b["key"], j, b["aad"] + rec[8:16], rec[16:])
+                    if kk not in probes:
+                        probes[kk] = Case("nopen", key=b["key"], n=j, ad=b["aad"] + rec[8:16], x=rec[16:], tags=["io-fault-nonce", "own" if j == ri else "other"])
+                    owners.append((inp, c, ri, j, m, probes[kk]))
+        self.run_cases(ctx, list(probes.values()), model=True)
+        n_bad = 0
+        for inp, c, ri, j, m, pc in owners:
+            res = pc.result
+            ok = (res["code"] == 0) if j == ri else (res["code"] == 51)
+            if not ok:
+                n_bad += 1
+                if n_bad > 6:
+                    ctx.oracle_checks += 1
+                    self.count(ctx, "further-nonce-violations-not-reported")
+                    continue
+            self.check(ctx, ok, inp,
+                       ("record %d of the output opens under nonce %d" % (ri, ri)) if j == ri else
+                       ("record %d of the output does not open under nonce %d (chunk i is sealed under nonce i only: no nonce skipped, none used twice)" % (ri, j)),
+                       "operation returned %s with %d complete record(s) in the sink; record %d under nonce %d: %s" % (c.result["outcome"], m, ri, j, res["outcome"]))
+        self.sample(ctx, {"gen": "io-fault", "faulted_runs": len(encs), "nonce_probes": len(owners), "distinct_probes": len(probes)})
+
+    # ---------------------------------------------------------------- (f) Some/None combinations and coinciding arguments, repeated
+    def r6_argument_combinations(self, ctx):
+        rng = ctx.rng
+        full = ctx.thorough()
+        REP = 3
+        (s, spk), (r, rpk), (e, epk), (s2, spk2) = self.parties
+        o_ = lambda b: "none" if b is None else hexs(b)
+        L = 24
+        # (label, sender pair, recipient pair, ephemeral pair, payload key)
+        pk0 = ctx.rbytes(32)
+        coinc = [("all different", (s, spk), (r, rpk), (e, epk), pk0),
+                 ("ephemeral pair = sender pair", (s, spk), (r, rpk), (s, spk), pk0),
+                 ("ephemeral pair = recipient pair", (s, spk), (r, rpk), (r, rpk), pk0),
+                 ("payload key = ephemeral private key", (s, spk), (r, rpk), (e, epk), e),
+                 ("payload key = ephemeral public key", (s, spk), (r, rpk), (e, epk), epk),
+                 ("payload key = sender private key", (s, spk), (r, rpk), (e, epk), s),
+                 ("payload key = sender public key", (s, spk), (r, rpk), (e, epk), spk),
+                 ("payload key = recipient public key", (s, spk), (r, rpk), (e, epk), rpk),
+                 ("sender = recipient", (s, spk), (s, spk), (e, epk), pk0),
+                 ("sender = recipient = ephemeral pair", (s2, spk2), (s2, spk2), (s2, spk2), pk0),
+                 ("payload key = ephemeral private key = sender private key", (s, spk), (r, rpk), (s, spk), s)]
+        if not full:
+            coinc = coinc[:1] + rng.sample(coinc[1:], 5)
+        calls = []
+        for label, (a, apk), (b_, bpk), (ee, eepk), pk in coinc:
+            for mask in range(8):
+                ge, gepk, gpk = bool(mask & 1), bool(mask & 2), bool(mask & 4)
+                pts = [ctx.rbytes(L) for _ in range(REP)]
+                for k in range(REP):
+                    calls.append({"label": label, "mask": mask, "a": a, "apk": apk, "b": b_, "bpk": bpk, "e": ee if ge else None, "epk": eepk if gepk else None,
+                                  "pk": pk if gpk else None, "pt": pts[k], "grp": (label, mask),
+                                  "args": set([a, apk, bpk, ee, eepk, pk])})
+        bodies = ["setrand none"] + ["key_enc %s %s %s %s %s %s %s - - -" % (hexs(c["a"]), hexs(c["apk"]), hexs(c["bpk"]), o_(c["e"]), o_(c["epk"]), o_(c["pk"]), hexs(c["pt"]))
+                                     for c in calls]
+        res = drv(ctx.bin, bodies)[1:]
+        q = []
+        for c, rr in zip(calls, res):
+            c["line"] = bodies[1 + len(q)]
+            c["F"] = unhex(rr.get("out", "-")) if rr.get("outcome") == "ok" else b""
+            c["raw"] = rr["raw"]
+            q.append("noise_dec %s %s %s %s" % (hexs(c["b"]), hexs(c["bpk"]), hexs(PROLOGUE), hexs(c["F"][4:132] if len(c["F"]) >= 132 else b"\0" * 128)))
+        nd = drv(ctx.bin, q)
+        fk = drv(ctx.bin, ["hkdf - %s %s 32" % (x.get("out", "-"), x.get("hh", "-")) if x["outcome"] == "ok" else "sha256 -" for x in nd])
+        groups = collections.defaultdict(list)
+        for c, x, y in zip(calls, nd, fk):
+            inp = {"driver": "libdrv", "lines": ["setrand none", c["line"]], "repeat": REP, "arguments": c["label"],
+                   "given": {"ephemeral": c["e"] is not None, "ephemeral_public": c["epk"] is not None, "payload_key": c["pk"] is not None}}
+            c["inp"] = inp
+            self.ran(ctx, "argument-combination/%s" % c["label"])
+            if not self.check(ctx, len(c["F"]) == 132 + 32 + L and x["outcome"] == "ok", inp, "encryption succeeds and the recipient opens the handshake", c["raw"][:200] + " / " + x["raw"][:120]):
+                continue
+            c["eph"], c["pkey"], c["fkey"] = c["F"][4:36], unhex(x["out"]), unhex(y["out"])
+            both = c["e"] is not None and c["epk"] is not None
+            if c["pk"] is not None:
+                self.check(ctx, c["pkey"] == c["pk"], inp, "the injected payload key is used", c["pkey"].hex())
+            else:
+                self.check(ctx, c["pkey"] not in c["args"], inp, "an uninjected payload key is none of the arguments", c["pkey"].hex())
+            if both:
+                self.check(ctx, c["eph"] == c["epk"], inp, "the injected ephemeral pair is used", c["eph"].hex())
+            else:
+                self.check(ctx, c["eph"] not in c["args"], inp, "an uninjected ephemeral key is none of the arguments", c["eph"].hex())
+            groups[c["grp"]].append(c)
+        seen_p, seen_e = {}, {}
+        for (label, mask), g in groups.items():
+            c0 = g[0]
+            both = c0["e"] is not None and c0["epk"] is not None
+            inp = dict(c0["inp"], lines=["setrand none"] + [c["line"] for c in g])
+            if c0["pk"] is None:
+                self.check(ctx, len(set(c["pkey"] for c in g)) == len(g), inp, "%d calls with identical key arguments and no payload key given: payload keys pairwise distinct" % len(g),
+                           [c["pkey"].hex() for c in g])
+                for c in g:
+                    prev = seen_p.get(c["pkey"])
+                    self.check(ctx, prev is None or prev == c0["grp"], dict(inp, other_group=str(prev)), "a payload key drawn by the library never occurs in a call with other arguments", c["pkey"].hex())
+                    seen_p[c["pkey"]] = c0["grp"]
+            if not both:
+                self.check(ctx, len(set(c["eph"] for c in g)) == len(g), inp, "%d calls without a complete injected ephemeral pair: ephemeral keys pairwise distinct" % len(g),
+                           [c["eph"].hex() for c in g])
+                for c in g:
+                    prev = seen_e.get(c["eph"])
+                    self.check(ctx, prev is None or prev == c0["grp"], dict(inp, other_group=str(prev)), "an ephemeral key drawn by the library never occurs in a call with other arguments", c["eph"].hex())
+                    seen_e[c["eph"]] = c0["grp"]
+            if not (both and c0["pk"] is not None):
+                self.check(ctx, len(set(c["fkey"] for c in g)) == len(g), inp, "file keys pairwise distinct unless ephemeral pair AND payload key are injected",
+                           [c["fkey"].hex() for c in g])
+                for i in range(len(g)):
+                    for j in range(i + 1, len(g)):
+                        A, B = g[i], g[j]
+                        ca, cb = A["F"][148:148 + L], B["F"][148:148 + L]
+                        same = bytes(x ^ y for x, y in zip(ca, cb)) == bytes(x ^ y for x, y in zip(A["pt"], B["pt"]))
+                        self.check(ctx, not same, inp, "chunk 0 of two files is not sealed under one (key, nonce): ct XOR ct' != pt XOR pt'",
+                                   "calls %d and %d: ct XOR ct' == pt XOR pt' (same key stream under nonce 0)" % (i, j))
+        self.sample(ctx, {"gen": "argument-combination", "calls": len(calls), "coincidences": [c[0] for c in coinc]})
 
     # ---------------------------------------------------------------- (d) CLI histories over a shared file system
     HIST_RULE = ("(d) CLI histories: sequences of 3..6 real CLI runs (password encrypt, encrypt, key generate) that write to ONE output "
@@ -1574,6 +1815,123 @@ class C08(MiscProp):
         self.cli_part(ctx)
         self.cli_sizes(ctx)
         self.pty_part(ctx)
+        self.r6_coinciding_arguments(ctx)
+
+    R6_RULE = ("coinciding arguments: groups of key_encrypt calls with ONE supplied ephemeral pair E (and partly one payload key) for 3 (thorough 5) "
+               "sender/recipient pairs, in which one call has two byte-string arguments EQUAL — sender pair = E, recipient pair = E, payload key = "
+               "E's private / public key, = the sender's private / public key, = the recipient's public key, sender = recipient, all at once — "
+               "lengths 0 / 5 / 33 under random read partitions: every file obeys the length formula, has the predicted cleartext view with E's "
+               "public key at bytes 4..36, the views are identical inside a group, no public key other than E's occurs anywhere, and every file "
+               "equals the model's byte for byte. key arguments of unusual length: sender public, ephemeral public, recipient public, sender private, "
+               "ephemeral private and payload key of 31, 33, 36 (key + keyring checksum), 48 and 64 bytes, one position at a time: the call is refused "
+               "(error / panic before anything is written), or else the file obeys the exact length formula and bytes 4..36 are the 32-byte ephemeral key")
+    rule = rule + " " + R6_RULE
+
+    def r6_coinciding_arguments(self, ctx):
+        rng = ctx.rng
+        full = ctx.thorough()
+        G = 5 if full else 3
+        ids = keypairs(ctx, 2 * G + 1)
+        e, epk = ids[-1]
+        pk0 = ctx.rbytes(32)
+        (s0, spk0), (r0, rpk0) = ids[0], ids[1]
+        # (label, sender pair, recipient pair, payload key) of the coinciding member; the other members use ids[2k], ids[2k+1]
+        kinds = [("sender pair = ephemeral pair", (e, epk), (r0, rpk0), pk0),
+                 ("recipient pair = ephemeral pair", (s0, spk0), (e, epk), pk0),
+                 ("payload key = ephemeral private key", (s0, spk0), (r0, rpk0), e),
+                 ("payload key = ephemeral public key", (s0, spk0), (r0, rpk0), epk),
+                 ("payload key = sender private key", (s0, spk0), (r0, rpk0), s0),
+                 ("payload key = sender public key", (s0, spk0), (r0, rpk0), spk0),
+                 ("payload key = recipient public key", (s0, spk0), (r0, rpk0), rpk0),
+                 ("sender = recipient", (s0, spk0), (s0, spk0), pk0),
+                 ("sender = recipient = ephemeral pair, payload key = its private key", (e, epk), (e, epk), e)]
+        cases, meta = [], []
+        for ki, (label, (a, apk), (b, bpk), pk) in enumerate(kinds):
+            for n in ([0, 5, 33] if full else [rng.choice([0, 5, 33])]):
+                parts = [] if n == 0 else rng.choice(all_partitions(n, n) if n <= 5 else [[], [1, 1], [n // 2], [rng.randrange(1, n) for _ in range(3)]])
+                sizes = sim_reads(n, parts)
+                members = [(a, apk, b, bpk, pk, True)] + [(ids[2 * k][0], ids[2 * k][1], ids[2 * k + 1][0], ids[2 * k + 1][1], pk if k == 1 else ctx.rbytes(32), False) for k in range(1, G)]
+                # the coinciding member twice: a group must not depend on which call comes first
+                members.append((a, apk, b, bpk, pk, True))
+                for (x, xpk, y, ypk, p_, co) in members:
+                    c = Case("key_enc", s=x, spk=xpk, r=ypk, e=e, epk=epk, pk=p_, data=ctx.rbytes(n), rs=script_of(parts),
+                             tags=["coinciding-arguments" if co else "coinciding-arguments-partner", "len=%d" % n])
+                    cases.append(c)
+                    meta.append({"g": (ki, n, tuple(parts)), "label": label, "n": n, "sizes": sizes, "co": co,
+                                 "needles": [nd for who, key in (("sender-public-key", xpk), ("recipient-public-key", ypk)) if key != epk for nd in needles_for(key, who)]})
+        views = collections.defaultdict(set)
+
+        def oracle(m):
+            def f(res):
+                what = "(%s) " % m["label"] if m["co"] else "(partner of a call with %s) " % m["label"]
+                if res["code"] != 0:
+                    return (what + "encryption succeeds", res["outcome"])
+                F = res["out"]
+                sz = m["sizes"] or [0]
+                want_len = 132 + 32 * len(sz) + m["n"]
+                if len(F) != want_len:
+                    return (what + "length = 132 + 32*%d + %d = %d" % (len(sz), m["n"], want_len), "%d bytes" % len(F))
+                v, recs = view_of(F, 132)
+                want_v = PROLOGUE + epk + b"".join(i.to_bytes(8, "big") + (1 if i == len(sz) - 1 else 0).to_bytes(4, "big") + sz[i].to_bytes(4, "big") for i in range(len(sz)))
+                if v != want_v:
+                    return (what + "cleartext view = magic, the SUPPLIED ephemeral public key, per-record (counter, last flag, length), whoever the parties are: " + want_v.hex(), v.hex())
+                hits = find_needles(F, m["needles"])
+                if hits:
+                    return (what + "no identity material anywhere in the file", "found " + ", ".join(hits))
+                views[m["g"]].add(v)
+                return None
+            return f
+        for c, m in zip(cases, meta):
+            c.expect_fn = oracle(m)
+        # model comparison: the coinciding call of every group (thorough: every call); the partners are ordinary calls (C08.library compares those)
+        seen_g, with_model, without = set(), [], []
+        for c, m in zip(cases, meta):
+            if full or (m["co"] and m["g"] not in seen_g):
+                seen_g.add(m["g"])
+                with_model.append(c)
+            else:
+                without.append(c)
+        self.run_cases(ctx, with_model, model=True)
+        self.run_cases(ctx, without, model=False)
+        for g, vs in views.items():
+            self.check(ctx, len(vs) == 1, {"driver": "libdrv", "group": "%s, length %d, partition %s" % (kinds[g[0]][0], g[1], list(g[2]))},
+                       "encryptions with one ephemeral key have identical cleartext views whoever the parties are", "%d different views: %s" % (len(vs), [v.hex() for v in list(vs)[:2]]))
+        self.count(ctx, "coinciding-argument-groups", len(views))
+        # ---- key arguments of unusual length, one position at a time
+        (s, spk), (r, rpk) = ids[2], ids[3]
+        o_ = lambda b: "none" if b is None else hexs(b)
+        n = 13
+        data = ctx.rbytes(n)
+        base = {"s": s, "spk": spk, "rpk": rpk, "e": e, "epk": epk, "pk": pk0}
+
+        def stretch(key, L):
+            if L < 32:
+                return key[:L]
+            if L == 36:
+                return key + hashlib.sha256(key).digest()[:4]          # what base64-decoding a keyring value yields
+            return key + ctx.rbytes(L - 32)
+        lens = [31, 33, 36, 48, 64]
+        lines, what = [], []
+        for pos in ("spk", "epk", "rpk", "s", "e", "pk"):
+            for L in (lens if (full or pos in ("spk", "epk")) else [36, rng.choice([31, 33, 48, 64])]):
+                a = dict(base)
+                a[pos] = stretch(base[pos], L)
+                lines.append("key_enc %s %s %s %s %s %s %s - - -" % (hexs(a["s"]), hexs(a["spk"]), hexs(a["rpk"]), o_(a["e"]), o_(a["epk"]), o_(a["pk"]), hexs(data)))
+                what.append("%s of %d bytes" % ({"spk": "sender public key", "epk": "ephemeral public key", "rpk": "recipient public key", "s": "sender private key",
+                                                 "e": "ephemeral private key", "pk": "payload key"}[pos], L))
+        for line, w in zip(lines, what):
+            rr = drv(ctx.bin, [line])[0]          # one process per line: a refusal may be a panic or an abort
+            inp = {"driver": "libdrv", "lines": [line], "argument": w}
+            self.ran(ctx, "key-argument-length/%s" % w.split(" of ")[0])
+            F = unhex(rr.get("out", "-")) if re.fullmatch(r"[0-9a-f]*|-", rr.get("out", "-")) else b""
+            self.count(ctx, "key-argument-length-outcome:%s" % rr.get("outcome", "?").split(":")[0])
+            if rr.get("outcome") != "ok":
+                self.check(ctx, len(F) == 0, inp, w + ": refused before anything is written", "%s with %d bytes written" % (rr.get("outcome"), len(F)))
+                continue
+            self.check(ctx, len(F) == 132 + 32 + n and F[:4] == PROLOGUE and F[4:36] == epk[:32] and c08_wellformed(F, 132, n)[0] is None, inp,
+                       w + ": refused, or a file of exactly 132 + 32 + %d = %d bytes (independent of the key material) with the 32-byte ephemeral key at 4..36 followed "
+                           "by the 96 handshake bytes and one record" % (n, 164 + n),
+                       "%d bytes, bytes 4..40 = %s, records: %s" % (len(F), F[4:40].hex(), c08_wellformed(F, 132, n)[0]))
 
     RULE_SIZES_PTY = (
         "CLI size boundaries: plaintexts of 0, 1, 65535, 65536, 65537, 2*65536-1 .. 2*65536+1, 3*65536 and three random multiples of 64 KiB "
@@ -2493,6 +2851,115 @@ class C11(MiscProp):
         self.traces(ctx)
         self.process_streaming(ctx)
         self.file_argument_streaming(ctx)
+        self.r6_sinks_and_foreign_files(ctx)
+
+    # ---------------------------------------------------------------- sinks that take little per call; files of an independent writer
+    R6_RULE = ("short-writing sinks: the library encrypts the generator stream (3 chunks + 5 bytes, 1 MiB, 4 MiB; thorough 16 MiB) into a counting sink "
+               "that accepts at most 1 / 100 / 16384 / 65567 / a random number of bytes per write call (both modes, dev and release): the same constants "
+               "for peak heap, heap across I/O calls, read-ahead (lag <= 2*65536+32) as with a sink that takes everything, and peak heap equal within "
+               "4096 bytes for all lengths. files of an independent writer (harness/libdrv/src/mem.rs decx_write: handshake by noise_encrypt resp. key by "
+               "scrypt, chunks sealed one by one with the Noise AEAD): 50 .. 40000 (thorough 300000) NON-FINAL chunks that are all empty, empty or "
+               "1 byte, 1 byte, 0..3 bytes, or 0..65536 bytes long, then a 7-byte final chunk, decrypted from a BufReader<File> (read sizes 65536 / 4096 / 1) into the "
+               "counting sink (also one that takes 1 or 100 bytes per call): succeeds with exactly the plaintext, peak heap and heap across I/O calls within "
+               "the constants, and equal within 4096 bytes whatever the number of chunks")
+    rule = rule + " " + R6_RULE
+
+    def r6_sinks_and_foreign_files(self, ctx):
+        rng = ctx.rng
+        full = ctx.thorough()
+        MiB = 1 << 20
+        jobs = []
+        for prof, binp in (("release", self.rel), ("dev", ctx.bin)):
+            if not binp:
+                continue
+            for op in ("mem_key_encw", "mem_pass_encw"):
+                key = op == "mem_key_encw"
+                caps = [1, 100, 16384, BIG + 31, rng.randrange(2, BIG)] if key else [rng.choice([100, 1000]), 16384]
+                sizes = [3 * BIG + 5, MiB, 4 * MiB] + ([16 * MiB] if full and prof == "release" else [])
+                if not key and not full:
+                    sizes = [3 * BIG + 5, 2 * MiB]
+                lines = []
+                for cap in caps:
+                    for n in sizes:
+                        if cap == 1 and n > MiB and not (full and prof == "release"):
+                            continue
+                        lines.append("%s %d %d %d" % (op, n, BIG if cap != 16384 else rng.choice([BIG, 4096]), cap))
+                jobs.append((prof, binp, op, lines))
+            for op in ("mem_key_decx", "mem_pass_decx"):
+                key = op == "mem_key_decx"
+                counts = [50, 3000, 12000, 40000] + ([300000] if full and prof == "release" else [])
+                shapes = [(0, 0), (0, 1), (1, 1), (0, 3)]
+                if not key:
+                    counts, shapes = ([50, 12000], [(0, 0), (0, 1)]) if not full else (counts[:4], shapes[:3])
+                lines = []
+                for lo, hi in shapes:
+                    rsz = rng.choice([BIG, BIG, 4096])
+                    for cnt in counts:
+                        lines.append("%s %d %d %d %d %d" % (op, cnt, rsz, lo, hi, 0))
+                if key:
+                    lines.append("%s %d %d 0 %d 0" % (op, rng.randrange(20, 40), BIG, BIG))
+                    lines.append("%s %d %d 0 %d %d" % (op, rng.randrange(20, 40), 4096, BIG, rng.choice([1, 100])))
+                    lines.append("%s %d 1 0 1 0" % (op, rng.randrange(500, 1500)))
+                    lines.append("%s %d %d 0 0 %d" % (op, rng.randrange(5000, 20000), BIG, rng.choice([1, 100])))
+                jobs.append((prof, binp, op, lines))
+        with ThreadPoolExecutor(max_workers=vlib.NPROC) as ex:
+            outs = list(ex.map(lambda j: drv(j[1], j[3], timeout=3000), jobs))
+        groups = collections.defaultdict(list)
+        for (prof, binp, op, lines), rs in zip(jobs, outs):
+            for line, r in zip(lines, rs):
+                t = line.split()
+                inp = {"driver": "libdrv", "profile": prof, "lines": [line], "oracle": "r6mem"}
+                self.ran(ctx, "short-sink-foreign-file/%s/%s" % (prof, op))
+                bad = self.r6_oracle(line, r)
+                ctx.oracle_checks += 1
+                if bad:
+                    if len(ctx.violations) < MAX_VIOLATIONS:
+                        ctx.violations.append({"input": inp, "expected": bad[0], "observed": bad[1] + "  [" + r["raw"][:400] + "]", "finding_key": None})
+                    continue
+                if op.endswith("encw"):
+                    self.count(ctx, "short-sink:cap=%s" % ("1" if t[3] == "1" else "<=100" if int(t[3]) <= 100 else "<64KiB" if int(t[3]) < BIG else "64KiB+31"))
+                    if int(t[1]) >= 2 * BIG and int(t[2]) == BIG:
+                        groups[(prof, op, "write cap %s" % t[3])].append((int(t[1]), int(r["peak"]), int(r["iopeak"]), line))
+                else:
+                    self.count(ctx, "foreign-file:chunks=%s lengths=%s..%s" % ("<1000" if int(t[1]) < 1000 else "<=12000" if int(t[1]) <= 12000 else ">12000", t[3], t[4]))
+                    if int(t[4]) <= 3 and t[5] == "0" and int(t[2]) > 1:
+                        groups[(prof, op, "non-final chunks of %s..%s bytes" % (t[3], t[4]))].append((int(t[1]), int(r["peak"]), int(r["iopeak"]), line))
+                if line is lines[-1]:
+                    self.sample(ctx, {"gen": "short-sink-foreign-file", "profile": prof, "line": line, "reply": r["raw"][:300]})
+        for (prof, op, what), g in groups.items():
+            if len(g) < 2:
+                continue
+            pk, io = [x[1] for x in g], [x[2] for x in g]
+            inp = {"driver": "libdrv", "profile": prof, "lines": [x[3] for x in g], "oracle": "r6indep"}
+            self.check(ctx, max(pk) - min(pk) < 4096 and max(io) - min(io) < 4096, inp,
+                       "%s, %s: peak heap independent of the %s (within 4096 bytes) over %s" % (
+                           op, what, "input length" if op.endswith("encw") else "number of chunks", [x[0] for x in g]),
+                       "peak %s iopeak %s" % (pk, io))
+
+    @staticmethod
+    def r6_oracle(line, r):
+        t = line.split()
+        op = t[0]
+        if op.endswith("encw"):
+            bad = C11.mem_oracle(op[:-1], int(t[1]), int(t[2]), r)
+            if bad:
+                return ("sink accepting at most %s bytes per write call: %s" % (t[3], bad[0]), bad[1])
+            return None
+        what = "file of an independent writer, %s non-final chunks of %s..%s bytes + a final 7-byte chunk" % (t[1], t[3], t[4])
+        if r.get("outcome") != "ok":
+            return (what + ": decryption succeeds", str(r.get("outcome")))
+        g = lambda k: int(r.get(k, "-1"))
+        if r.get("match") != "1" or g("written") != g("plain"):
+            return (what + ": decryption returns exactly the %s plaintext bytes" % r.get("plain"), "match=%s written=%d" % (r.get("match"), g("written")))
+        if g("iopeak") > STREAM_BOUND:
+            return (what + ": heap held across I/O calls <= %d bytes whatever the number of chunks" % STREAM_BOUND, "iopeak=%d" % g("iopeak"))
+        lim = STREAM_BOUND + (0 if "key" in op else SCRYPT_MEM)
+        if g("peak") > lim:
+            return (what + ": peak heap during the call <= %d bytes whatever the number of chunks" % lim, "peak=%d" % g("peak"))
+        return None
+
+    def recheck_r6mem(self, inp, rs):
+        return self.r6_oracle(inp["lines"][0], rs[0]) is None
 
     # ---------------------------------------------------------------- forged chunk headers: the announced length must not size anything
     HOSTILE = [BIG + 1, 1 << 17, 1 << 20, 1 << 24, 1 << 28, 1 << 31, 0xFFFFFFFF]
@@ -3487,7 +3954,9 @@ class C18(MiscProp):
             "the RFC value; the outcome of every call (value or panic class) is compared with Model/ScryptImpl.v (C18_asserts / C18_total); the same "
             "sequences through the C ABI in a forked child with the replies handed over call by call (the refused call ends the child: the valid calls "
             "before it, and after it should it return, must be exact; Model/ScryptFfi.v says where the sequence stops). thorough tier: Spec/Scrypt.v's rfc_scrypt itself evaluated by coqc at the production parameters N = 32768, r = 8, p = 1 "
-            "(one password/salt, ~50 min, 7 GB, cached) and compared with the library and with OpenSSL. non-trivial = all; distinct = distinct requests")
+            "(one password/salt, ~50 min, 7 GB, cached) and compared with the library and with OpenSSL. corners of the cost-parameter domain (library and "
+            "C ABI): every N in 2048..32768 with r = 1, 2 (thorough: 1, 2, 3, 15, 16) incl. N = 32768 with r = 1, N = 2, 4, 8 with r = 15, 16, p up to 8; C ABI with 64 guard "
+            "bytes on both sides for EVERY dkLen 1..100 (thorough 1..300). non-trivial = all; distinct = distinct requests")
     assumptions = ["OpenSSL's EVP scrypt (through Python's hashlib) is the reference RFC 7914 implementation",
                    "what a call with parameters outside the documented domain (N not a power of two or < 2, r = 0, p = 0, dkLen = 0, r*p >= 2^30) itself does is "
                    "not demanded by the property (it is compared with the model's panic class only); such calls are made to see that the valid calls AFTER "
@@ -3957,6 +4426,7 @@ class C18(MiscProp):
                         for dk in DK:
                             grid.append((N, r, p, dk))
             grid += [(32768, 8, 1, 32), (16384, 3, 2, 33), (4096, 16, 1, 31), (2048, 5, 8, 200)]
+        grid += self.r7_corner_grid(ctx)
         cases = []
         for (N, r, p, dk) in grid:
             pw, salt = ctx.rbytes(self.plen(ctx)), ctx.rbytes(self.plen(ctx))
@@ -4013,6 +4483,36 @@ class C18(MiscProp):
             self.model_results(ctx, "gallina-scrypt(spec+impl)", items, res_m, log, inputs, impls)
         else:
             self.count(ctx, "skipped:gallina-scrypt(Spec/Scrypt.v or Model/ScryptImpl.v absent)")
+
+    def r7_corner_grid(self, ctx):
+        """the corners and edges of the property's cost-parameter domain (N = 2 .. 2^15, r = 1 .. 16): the largest N with the smallest r
+        (RFC 7914 section 2 bounds N by 2^(128*r/8): N = 32768 with r = 1 is the largest N that bound allows for r = 1), the smallest N with
+        the largest r, and every N above the full grid with r = 1, 2; (N, r, p, dkLen)"""
+        rng = ctx.rng
+        DK = [1, 16, 31, 32, 33, 64, 100, 200]
+        g = []
+        for N in (2048, 4096, 8192, 16384, 32768):
+            for r in ((1, 2, 3, 15, 16) if ctx.thorough() else (1, 2)):
+                g.append((N, r, 1 if N * r > 32768 else rng.choice([1, 1, 2, 3]), rng.choice(DK)))
+        g += [(32768, 1, 1, 32), (32768, 1, 3, rng.choice(DK)), (16384, 1, 1, rng.choice(DK))]
+        for N in (2, 4, 8):
+            for r in ((13, 14, 15, 16) if ctx.thorough() else (15, 16)):
+                g.append((N, r, rng.choice([1, 2, 8]), rng.choice(DK)))
+        g += [(2, 16, 8, 33), (2, 1, 8, 1), (1024, 16, 1, rng.choice(DK)), (1024, 1, 8, rng.choice(DK)), (512, 9, 1, 64)]
+        return g
+
+    def r7_ffi_requests(self, ctx):
+        """C ABI: EVERY output length 1..100 (thorough: 1..300) with 64 guard bytes on both sides (small cost parameters), and the corners of
+        the N / r domain"""
+        rng = ctx.rng
+        reqs = []
+        for dk in range(1, 301 if ctx.thorough() else 101):
+            reqs.append({"pw": ctx.rbytes(rng.randrange(0, 12)).hex(), "salt": ctx.rbytes(rng.randrange(0, 12)).hex(), "n": rng.choice([2, 4, 8]),
+                         "r": rng.choice([1, 2]), "p": rng.choice([1, 2, 3]), "dklen": dk, "guard": 64})
+        for (N, r, p) in ((32768, 1, 1), (32768, 2, 1), (16384, 1, 2), (8192, 1, 1), (2, 16, 1), (2, 16, 3), (4, 15, 2), (2, 1, 8), (1024, 16, 1)):
+            reqs.append({"pw": ctx.rbytes(self.plen(ctx)).hex(), "salt": ctx.rbytes(self.plen(ctx)).hex(), "n": N, "r": r, "p": p,
+                         "dklen": rng.choice([1, 16, 31, 32, 33, 64, 77]), "guard": 64})
+        return reqs
 
     def recheck_scrypt(self, inp, rs):
         _, pw, salt, N, r, p, dk = inp["lines"][0].split()
@@ -4102,6 +4602,7 @@ class C18(MiscProp):
                 src, other = ctx.rbytes(ln).hex(), ctx.rbytes(rng.choice([0, 9, 70])).hex()
                 reqs.append({"pw": src if which == "pw" else other, "salt": src if which == "salt" else other, "n": rng.choice([2, 16, 256]),
                              "r": rng.choice([1, 3]), "p": 2, "dklen": dk, "guard": 32, "alias": which, "alias_off": off})
+        reqs += self.r7_ffi_requests(ctx)
         outs = ffi_call([dict(r) for r in reqs])
         lib = drv(ctx.bin, ["scrypt %s %s %d %d %d %d" % (r["pw"] or "-", r["salt"] or "-", r["n"], r["r"], r["p"], r["dklen"]) for r in reqs])
         for r, o, l in zip(reqs, outs, lib):
@@ -4252,6 +4753,8 @@ def zp_parse_line(line):
 def zp_window(hay, key, w):
     """first position in `hay` where w consecutive bytes of `key` (any alignment inside the key) are found, or None"""
     for i in range(0, 32 - w + 1):
+        if 2 * sum(1 for b in key[i:i + w] if b) < w:
+            continue        # a (mostly) zero window of a structured key cannot be told from erased storage / the zero bytes of a length or address
         at = hay.find(key[i:i + w])
         if at >= 0:
             return at, i
@@ -4402,7 +4905,12 @@ class C20(MiscProp):
             "buffer at every address 0..15 mod 16; ALL bytes of both storage blocks (and every still allocated key heap block) are read "
             "back before the first and after every release step; oracle: all 32 bytes of every released / zeroized key are zero, no 4 "
             "(PrivateKey blocks: 8) consecutive key bytes remain anywhere in the storage, one wiped allocator record per PrivateKey; the "
-            "journal (contents of each key's storage right after its release) is compared with Model/Zeroize.v as above")
+            "journal (contents of each key's storage right after its release) is compared with Model/Zeroize.v as above. "
+            "FIRST ERASURE OF A PROCESS: each constructor x each way of release (drop in the script, at the end, clone before / after its original, clone_from, "
+            "unwinding), each key type placed in a block x each release mode, and each z_api scan, every case in a driver process of its own so that the watched "
+            "container is the first key value that process ever releases. STRUCTURED KEY CONTENTS: keys with all-zero aligned 8-byte words at every position "
+            "(single, prefixes, suffixes, alternating), one non-zero byte at each position, zero runs across word boundaries, big-/little-endian small numbers, "
+            "repeated bytes: every constructor, short clone/drop/unwind histories, clone_from between two such keys, and in-place placements")
     assumptions = ["the observation is of heap blocks (PrivateKey's Vec buffer; PayloadKey boxed by the driver); stack copies and registers are not observed",
                    "PayloadKey is an inline array: in the histories its erasure is observed through Box<PayloadKey>; in the placement cases the value lives in a block owned by the driver (heap or the driver's stack frame) and is released in place (no move), so the bytes read back are the value's own storage",
                    "residue of the payload key in a released temporary Vec inside key_decrypt (not a key container) is recorded in the distribution as payload_residue_in_temporary, not flagged"]
@@ -4525,6 +5033,9 @@ class C20(MiscProp):
         pcs = self.placements(ctx)
         for prof, binp in profiles:
             self.run_placements(ctx, prof, binp, pcs, model=(prof == "dev" or ctx.thorough()))
+        for prof, binp in profiles:
+            self.r7_first_wipes(ctx, prof, binp)
+            self.r7_structured_contents(ctx, prof, binp)
 
     def controls(self, ctx, prof, binp):
         K = self.key(ctx)
@@ -4694,6 +5205,115 @@ class C20(MiscProp):
                 ctx.broken.append({"kind": "correspondence", "what": "C20/%s: %d of %d in-place journals are ALSO explained by the model WITHOUT the zeroize call "
                                    "(the comparison does not discriminate)%s" % (prof, nbad, len(nv_items), (" [" + log[-200:] + "]") if log else "")})
         self.sample(ctx, {"gen": "placements", "profile": prof, "count": len(cs), "example": bodies[1][:200], "reply": res[1]["raw"][:300]})
+
+    # ---- the FIRST erasure of a process; key contents with structure (the property holds for every value at every moment)
+    def r7_first_wipes(self, ctx, prof, binp):
+        """every case in a driver process OF ITS OWN in which the watched container is the first key value the process ever releases:
+        each constructor x each way a container is released (dropped in the script, dropped at the end, as a clone before / after its
+        original, replaced by clone_from, by unwinding) as z_hist histories, each key type placed in a block (z_place) x each release mode,
+        and each whole-API scan (z_api) as the first thing a process does"""
+        rng = ctx.rng
+        hs = []
+        for ctor in ("np", "nk", "ng", "ng-os"):
+            for tail in ([], ["d0"], ["c0", "d1"], ["c0", "d0"], ["x"], ["xl"], ["c0", "x"]):
+                key = self.key(ctx)
+                if ctor == "ng":
+                    first, stream = "ng", key
+                elif ctor == "ng-os":
+                    first, stream = "ng", None
+                else:
+                    first, stream = "%s:%s" % (ctor, key.hex()), "none"
+                hs.append(("first-wipe-of-the-process/%s/%s" % (ctor, "+".join(tail) or "end"), stream, [first] + tail, key if ctor != "ng-os" else None))
+        for c1 in ("np", "nk"):      # the first release is the value clone_from replaces (PrivateKey), resp. the first drop after it (PayloadKey)
+            k1, k2 = self.key(ctx), self.key(ctx)
+            hs.append(("first-wipe-of-the-process/%s/clone_from" % c1, "none", ["%s:%s" % (c1, k1.hex()), "%s:%s" % (c1, k2.hex()), "f0:1"], [k1, k2]))
+        for h in hs:
+            # one history = one fresh driver process (the empty history after it keeps run_histories' sample line in range)
+            self.run_histories(ctx, prof, binp, [h, ("empty", "none", [], [])], model=False)
+        pcs = []
+        for kind in ("K", "P"):
+            for rel in ZP_RELS:
+                for wrap in (("bare", "opt", "mixed", "arr") if ctx.thorough() else ("bare", rng.choice(["opt", "mixed", "arr", "after1", "tup", "enum"]))):
+                    pcs.append({"gen": "first-wipe-of-the-process/" + rel, "kind": kind, "wrap": wrap, "rel": rel,
+                                "ctor": "new" if kind == "K" else rng.choice(["try", "gen"]), "clone": rng.choice(ZP_CLONES),
+                                "store": rng.choice(["heap", "stack"]), "offa": rng.randrange(16), "offb": rng.randrange(16),
+                                "skew": rng.randrange(16) if kind == "P" else 0, "key": self.place_key(ctx)})
+        for c in pcs:
+            self.run_placements(ctx, prof, binp, [c], model=False)       # one placement = one fresh driver process
+        for which in ("noise_enc", "key_enc", "key_dec"):
+            sk = self.key(ctx)
+            b = "z_api %s %s" % (which, sk.hex())
+            r = drv(binp, ["setrand none", b])[1]
+            inp = {"driver": "libdrv", "profile": prof, "lines": ["setrand none", b], "oracle": "zapi"}
+            self.ran(ctx, "%s/first-wipe-of-the-process/z_api/%s" % (prof, which))
+            if int(r.get("blocks", "0") or 0) == 0 or r.get("outcome") != "ok":
+                self.machinery(ctx, "z_api (%s, fresh process) scanned nothing or the call failed: %s" % (prof, r["raw"][:200]))
+                continue
+            self.check(ctx, r.get("leaks") == "0", inp,
+                       "no block released during %s, the first call of this process, still contains the caller's private key" % which, r["raw"][:300])
+
+    def r7_structured_keys(self, ctx):
+        """(family, 32 key bytes): contents must not matter to the erasure.  Aligned 8-byte words that are all zero (each position, prefixes,
+        alternating), one non-zero byte at every position, zero runs that straddle word boundaries, small numbers big- and little-endian,
+        repeated bytes.  (The all-zero key is left out: its erasure cannot be observed.)"""
+        rng = ctx.rng
+        nz = lambda n: bytes(rng.randrange(1, 256) for _ in range(n))      # noqa: E731
+        ks = []
+        for w in range(4):
+            k = bytearray(nz(32))
+            k[8 * w:8 * w + 8] = bytes(8)
+            ks.append(("zero-word-%d" % w, bytes(k)))
+        for w in (1, 2, 3):
+            ks.append(("zero-prefix-%d-words" % w, bytes(8 * w) + nz(32 - 8 * w)))
+            ks.append(("zero-suffix-%d-words" % w, nz(32 - 8 * w) + bytes(8 * w)))
+        ks += [("zero-words-0-and-2", bytes(8) + nz(8) + bytes(8) + nz(8)), ("zero-words-1-and-3", nz(8) + bytes(8) + nz(8) + bytes(8)),
+               ("zero-words-1-and-2", nz(8) + bytes(16) + nz(8)), ("big-endian-9", bytes(31) + b"\x09"), ("little-endian-9", b"\x09" + bytes(31)),
+               ("big-endian-small", bytes(28) + nz(4)), ("all-ff", b"\xff" * 32), ("one-byte-repeated", nz(1) * 32), ("all-01", b"\x01" * 32),
+               ("alternating-zero", bytes(b if i % 2 else 0 for i, b in enumerate(nz(32)))), ("zero-halfwords", b"".join(bytes(4) + nz(4) for _ in range(4)))]
+        for i in (range(32) if ctx.thorough() else sorted(set([0, 7, 8, 15, 16, 23, 24, 31] + rng.sample(range(32), 6)))):
+            b = bytearray(32)
+            b[i] = rng.choice([1, 9, 0x80, 0xff, rng.randrange(1, 256)])
+            ks.append(("single-non-zero-byte", bytes(b)))
+        for o in (range(1, 24) if ctx.thorough() else rng.sample(range(1, 24), 5)):
+            k = bytearray(nz(32))
+            ln = rng.choice([8, 8, 9, 12, 16])
+            k[o:o + ln] = bytes(min(ln, 32 - o))
+            ks.append(("zero-run-at-%s-offset" % ("aligned" if o % 8 == 0 else "unaligned"), bytes(k)))
+        return ks
+
+    def r7_structured_contents(self, ctx, prof, binp):
+        rng = ctx.rng
+        ks = self.r7_structured_keys(ctx)
+        hs = []
+        tails = [[], ["c0"], ["c0", "d0"], ["c0", "d1"], ["d0"], ["x"], ["c0", "xl"], ["c0", "c1", "d0"]]
+        for fam, key in ks:
+            for ctor in ("np", "nk", "ng"):
+                for tail in ([[], ["c0"]] + [rng.choice(tails[2:])] if not ctx.thorough() else tails):
+                    if ctor == "ng":
+                        first, stream = "ng", key
+                    else:
+                        first, stream = "%s:%s" % (ctor, key.hex()), "none"
+                    hs.append(("structured-key/%s/%s" % (fam, ctor), stream, [first] + tail, key))
+        # two structured keys of one kind: clone_from replaces one by the other
+        for c1 in ("np", "nk"):
+            for _ in range(12 if ctx.thorough() else 4):
+                (_, k1), (_, k2) = rng.sample(ks, 2)
+                hs.append(("structured-key/two-keys/%s" % c1, "none", ["%s:%s" % (c1, k1.hex()), "%s:%s" % (c1, k2.hex()), rng.choice(["f0:1", "f1:0"])] +
+                           rng.choice([[], ["d0"], ["c1", "d0"]]), [k1, k2]))
+        self.run_histories(ctx, prof, binp, hs, model=(prof == "dev"))
+        # the same contents placed in a block at every alignment (PayloadKey inline; PrivateKey's heap block at a skewed address).  The
+        # "no 4 consecutive key bytes remain" scan skips all-zero windows of the key (zp_window); the wrappers whose tag / padding bytes
+        # are 0 or 1 are avoided so that the placement self-test cannot confuse a key byte with them
+        pcs = []
+        for fam, key in ks:
+            if ZP_FILL in key:
+                continue
+            for kind in ("K", "P"):
+                pcs.append({"gen": "structured-key/" + fam.split("-at-")[0], "kind": kind, "wrap": rng.choice(["bare", "after1", "after3", "arr"]), "rel": rng.choice(ZP_RELS),
+                            "ctor": "new" if kind == "K" else rng.choice(["try", "gen"]), "clone": rng.choice(ZP_CLONES),
+                            "store": rng.choice(["heap", "stack"]), "offa": rng.randrange(16), "offb": rng.randrange(16),
+                            "skew": rng.randrange(16) if kind == "P" else 0, "key": key})
+        self.run_placements(ctx, prof, binp, pcs, model=False)
 
     def recheck_zplace(self, inp, rs):
         ev = zp_eval(zp_parse_line(inp["lines"][1]), rs[1])
